@@ -2,6 +2,7 @@ package main
 
 import (
 	"fmt"
+	"go/constant"
 	"go/token"
 	"go/types"
 	"sort"
@@ -498,4 +499,177 @@ func c01CloneKeepsEveryValue(c *Ctx) {
 	if n < 1 {
 		c.Unresolved("C01.R10", "the map update that fills the clone in (*http2.HeaderMap).Clone")
 	}
+}
+
+// c01TarsFraming (R11): the tars codec parses the packet, not its framing.
+// A tars package is a 4 byte big-endian length followed by the tars encoded packet (encodeRequest/encodeResponse write the
+// prefix with make([]byte, N)). (a) `reader-behind-the-prefix`: every codec.NewReader in the package is given a slice of
+// the package bytes whose low bound is that same N - a reader that starts at the prefix parses the length bytes as tars
+// heads, which goes unnoticed for packages below 256 bytes (three zero bytes look like empty fields) and fails for every
+// larger one. (b) `int-field-in-every-width`: getStreamType tells a response from a request by the wire type of field 5
+// (iRet, an int32). TarsGo writes an int32 with the narrowest type that holds the value, so all of ZERO_TAG, BYTE, SHORT
+// and INT mean "response"; the decision is read off the CFG for every head type 0..13 (comparisons with constants
+// decided per value).
+func c01TarsFraming(c *Ctx) {
+	pkg := "pkg/protocol/xprotocol/tars"
+	if c.TypesPkg(pkg) == nil {
+		c.Unresolved("C01.R11", "package "+pkg)
+		return
+	}
+	// N: the prefix the encoders reserve
+	prefix := int64(-1)
+	for _, name := range []string{"encodeRequest", "encodeResponse"} {
+		fn := c.F(pkg, name)
+		if fn == nil {
+			continue
+		}
+		forEachInstr(fn, false, func(_ *ssa.Function, in ssa.Instruction) {
+			if ms, ok := in.(*ssa.MakeSlice); ok {
+				if k, isK := constInt(ms.Len); isK {
+					if prefix == -1 || prefix == k {
+						prefix = k
+					}
+				}
+			}
+			// make([]byte, 4) with a constant size is an array allocation plus a slice
+			if al, ok := in.(*ssa.Alloc); ok && al.Comment == "makeslice" {
+				if arr, isArr := derefArray(al.Type()); isArr {
+					if prefix == -1 || prefix == arr.Len() {
+						prefix = arr.Len()
+					}
+				}
+			}
+		})
+	}
+	if prefix <= 0 {
+		c.Unresolved("C01.R11", "the length prefix the tars encoders reserve (make([]byte, N))")
+		return
+	}
+	n := 0
+	ord := ordCounter{}
+	for _, fn := range c.PkgFuncs(pkg) {
+		forEachInstr(fn, false, func(f *ssa.Function, in ssa.Instruction) {
+			call, ok := in.(*ssa.Call)
+			if !ok || !strings.HasSuffix(calleeName(call.Common()), "codec.NewReader") || len(call.Common().Args) != 1 {
+				return
+			}
+			n++
+			okArg := false
+			var walk func(v ssa.Value, d int) bool
+			walk = func(v ssa.Value, d int) bool {
+				if d > 4 {
+					return false
+				}
+				switch x := v.(type) {
+				case *ssa.Slice:
+					if x.Low != nil {
+						if k, isK := constInt(x.Low); isK && k == prefix {
+							return true
+						}
+					}
+					return walk(x.X, d+1)
+				case *ssa.Phi:
+					for _, e := range x.Edges {
+						if !walk(e, d+1) {
+							return false
+						}
+					}
+					return true
+				}
+				return false
+			}
+			okArg = walk(call.Common().Args[0], 0)
+			c.Check("C01.R11", ord.next(f, "reader-behind-the-prefix"), call.Pos(), okArg, fmt.Sprintf("the tars reader starts behind the %d byte length prefix", prefix), fmt.Sprintf("a tars reader is created over bytes that still begin with the %d byte package length: the length is parsed as tars fields, which fails for every package of 256 bytes or more - a well-formed request or response of that size is refused instead of forwarded", prefix))
+		})
+	}
+	if n < 3 {
+		c.Unresolved("C01.R11", fmt.Sprintf("codec.NewReader calls in the tars codec (found %d)", n))
+	}
+	// (b)
+	gst := c.F(pkg, "getStreamType")
+	if gst == nil {
+		c.Unresolved("C01.R11", "getStreamType")
+		return
+	}
+	var ty ssa.Value
+	forEachInstr(gst, false, func(_ *ssa.Function, in ssa.Instruction) {
+		if ex, ok := in.(*ssa.Extract); ok && ex.Index == 2 {
+			if call, ok := ex.Tuple.(*ssa.Call); ok && methodName(call.Common()) == "SkipToNoCheck" {
+				ty = ex
+			}
+		}
+	})
+	if ty == nil {
+		c.Unresolved("C01.R11", "the head type returned by SkipToNoCheck in getStreamType")
+		return
+	}
+	consts := map[string]int64{}
+	for _, name := range []string{"CmdTypeResponse", "CmdTypeRequest"} {
+		if k, ok := c.TypesPkg(pkg).Scope().Lookup(name).(*types.Const); ok {
+			v, _ := constant.Int64Val(k.Val())
+			consts[name] = v
+		}
+	}
+	// head types of the tars wire format (TarsGo codec): BYTE 0, SHORT 1, INT 2, LONG 3, FLOAT 4, DOUBLE 5, STRING1 6,
+	// STRING4 7, MAP 8, LIST 9, STRUCT_BEGIN 10, STRUCT_END 11, ZERO_TAG 12, SIMPLE_LIST 13
+	want := map[int64]string{0: "CmdTypeResponse", 1: "CmdTypeResponse", 2: "CmdTypeResponse", 12: "CmdTypeResponse", 6: "CmdTypeRequest", 7: "CmdTypeRequest"}
+	// the decision starts at the first comparison of the head type (the error / not-found exits before it are not part of it)
+	var first ssa.Instruction
+	forEachInstr(gst, false, func(_ *ssa.Function, in ssa.Instruction) {
+		if bo, ok := in.(*ssa.BinOp); ok && (bo.X == ty || bo.Y == ty) {
+			if first == nil || instrDominates(bo, first) {
+				first = bo
+			}
+		}
+	})
+	if first == nil {
+		c.Unresolved("C01.R11", "a comparison of the head type in getStreamType")
+		return
+	}
+	var wrong []string
+	for v := int64(0); v <= 13; v++ {
+		got := map[int64]bool{}
+		for _, rs := range returnSites(gst, 0) {
+			k, isK := constInt(rs.val)
+			if !isK {
+				continue
+			}
+			reach := existsPathEdges(gst, first, func(in ssa.Instruction) bool { return in == rs.at }, nil, func(from, to *ssa.BasicBlock) bool {
+				ifi, ok := from.Instrs[len(from.Instrs)-1].(*ssa.If)
+				if !ok {
+					return true
+				}
+				bo, ok := ifi.Cond.(*ssa.BinOp)
+				if !ok || (bo.Op != token.EQL && bo.Op != token.NEQ) {
+					return true
+				}
+				var kc int64
+				var isC bool
+				if bo.X == ty {
+					kc, isC = constInt(bo.Y)
+				} else if bo.Y == ty {
+					kc, isC = constInt(bo.X)
+				}
+				if !isC {
+					return true
+				}
+				taken := (kc == v) == (bo.Op == token.EQL)
+				if taken {
+					return to == from.Succs[0]
+				}
+				return to == from.Succs[1]
+			})
+			if reach != nil {
+				got[k] = true
+			}
+		}
+		if w, has := want[v]; has {
+			if !(len(got) == 1 && got[consts[w]]) {
+				wrong = append(wrong, fmt.Sprintf("field 5 of wire type %d is not classified as %s", v, w))
+			}
+		} else if got[consts["CmdTypeResponse"]] || got[consts["CmdTypeRequest"]] {
+			wrong = append(wrong, fmt.Sprintf("field 5 of wire type %d is classified as a request or response", v))
+		}
+	}
+	c.Check("C01.R11", funcKey(gst)+":int-field-in-every-width", gst.Pos(), len(wrong) == 0, "responses: ZERO_TAG/BYTE/SHORT/INT, requests: STRING1/STRING4, everything else undefined", "getStreamType misclassifies tars packages ("+strings.Join(wrong, "; ")+"): TarsGo writes an int32 with the narrowest type that holds its value, so a response whose iRet is a small non-zero number (an error code such as -1) is refused as an unknown command and never reaches the downstream")
 }
